@@ -173,12 +173,16 @@ class Dataset:
 
         :return: True iif all the elements of the dataset can be integers
         """
+        # name which is read as a given integer: two different names, e.g. "07" and "7", must not become the same element
+        name_of_integer: Dict[int, str] = {}
         for ranking in rankings:
             for bucket in ranking:
                 for element in bucket:
                     if isinstance(element, str) and not element.isdecimal():
                         return False
                     if isinstance(element, Element) and not element.can_be_int():
+                        return False
+                    if name_of_integer.setdefault(int(str(element)), str(element)) != str(element):
                         return False
         # If we have checked all elements and none have returned False, then we can return True
         return True
